@@ -46,6 +46,9 @@ type CaseOut struct {
 	Notes        []string            `json:"notes,omitempty"`
 	Keys         map[string][]uint64 `json:"keys,omitempty"` // small distinct-sets shipped inline
 	Blob         map[string]string   `json:"blob,omitempty"` // free-form data for the parent's offline monitors
+	// Poisoned: the case left the worker process in a state no further case should run in (a call of the code
+	// under test never returned); the parent retires the worker after this result
+	Poisoned bool `json:"poisoned,omitempty"`
 }
 
 // Ctx is handed to a case.
@@ -121,6 +124,9 @@ func (c *Ctx) Inconclusive(reason string) {
 		c.out.Inconclusive = reason
 	}
 }
+
+// Poison asks the parent to retire this worker process once the case has reported.
+func (c *Ctx) Poison() { c.out.Poisoned = true }
 
 func (c *Ctx) Blob(k, v string) {
 	if c.out.Blob == nil {
@@ -548,6 +554,9 @@ func runParent(id, tier string) int {
 						}
 					} else if err := json.Unmarshal(r.line, &out); err != nil {
 						out = CaseOut{Case: i, Inconclusive: "bad result line: " + err.Error()}
+					} else if out.Poisoned {
+						w.kill()
+						w = nil
 					}
 				case <-time.After(timeout):
 					w.kill()
